@@ -330,6 +330,11 @@ class World:
                 if st[2]:
                     self.shield_on_cycle[id(m)] = self.cycle()
                 self.stats["shield_toggled"] += 1
+        elif k == "setdl":
+            m = self.scopes.get(st[1])
+            if m is not None and m.active and m.kind == "scope" and self.virtual:
+                m.real.deadline = self.loop.time() + st[2]
+                self.stats["deadline_reassigned"] += 1
         elif k == "raise":
             raise Boom(st[1])
         elif k == "return":
@@ -404,6 +409,14 @@ class World:
             if caught_flag:
                 self.bad("c04:cancelled-caught-true-without-absorb", what, f"{m.name}")
 
+    def timer_check(self, m, what):
+        """C05(3): once a scope has been left no deadline timer of it may stay armed."""
+        if hasattr(self.loop, "live_timers"):
+            for h in self.loop.live_timers():
+                if getattr(getattr(h, "_callback", None), "__self__", None) is m.real:
+                    self.bad("c05:timer-still-armed", what, f"scope {m.name} has been left but its deadline timer is still armed")
+                    break
+
     def residue_check(self, m, task, what):
         """C05(1): with no cancelled scope left anywhere above, the native cancel count must be back to 0."""
         if task in self.native_targets or getattr(self.loop, "failed", None):
@@ -445,10 +458,12 @@ class World:
             left = e
             self.check_exit(m, arrived, left, real.cancelled_caught, "scope")
             self.residue_check(m, task, "scope")
+            self.timer_check(m, "scope")
             raise
         else:
             self.check_exit(m, arrived, None, real.cancelled_caught, "scope")
             self.residue_check(m, task, "scope")
+            self.timer_check(m, "scope")
 
     async def run_catch(self, st, ms):
         _, what, body, handler, shielded, after = st
@@ -935,7 +950,7 @@ class _Return(Exception):
         self.value = value
 
 
-STAT_KEYS = ["native_cancel", "cancel_external", "cancel_self", "cancel_sibling", "cancel_handle",
+STAT_KEYS = ["deadline_reassigned", "native_cancel", "cancel_external", "cancel_self", "cancel_sibling", "cancel_handle",
              "op_entered_cancelled", "interrupted_after_blocking", "guard_fired", "shield_toggled", "absorbed",
              "propagated", "exit_with_cancellation_in_flight", "residue_checked", "caught", "native_timeout",
              "native_timeout_fired", "native_taskgroup", "spawn_into_cancelled_group", "group_waited_for_children",
